@@ -7,6 +7,8 @@
 //       "The given value is used when matching atoms or literals. If a larger value is found in the input stream, an std::exception is raised."
 //       SmodelsInput reads heads, the head count of choice/disjunctive rules, ALL body atoms and the atom of 91/92 with the member matchAtom
 //       (varMax_); symbol-table, compute and E-section atoms with matchPos(atomMax). Model: coq/C07/Model.v read_smodels_v.
+//   bit1 (cEdge) is refused (-3, C08); bit2 (cHeuristic) is refused (-3) when the text contains `_heuristic(` and otherwise must make no
+//   difference: every symbol then goes through SmodelsInput's private name table instead of straight to output() (model: coq/C07/Run.v)
 // Observation: <encoded calls in delivery order> status line nerr
 //   status 1 = accepted (the read returned 0), 0 = rejected through the error handler, 7 = an exception escaped
 //   line   = line passed to the error handler (0 when accepted), nerr = number of handler invocations
@@ -44,7 +46,10 @@ int main() {
 		size_t len = (size_t)c.next();
 		std::string in = c.bytes(len);
 		const ll mv = c.more() ? c.next() : 0;
-		if (opts & 6) { o.add(-3); o.flush(); continue; } // special-predicate conversion belongs to C08
+		// special-predicate conversion belongs to C08.  convertHeuristic (bit2) is admitted for texts WITHOUT `_heuristic(`: then no name is a
+		// heuristic predicate, nothing is converted, and the option only routes every symbol through the reader's private name table
+		// (SymTab::add, shared by the steps of an incremental program) - it must be invisible (coq/C07/Run.v applies the same test)
+		if ((opts & 2) || ((opts & 4) && in.find("_heuristic(") != std::string::npos)) { o.add(-3); o.flush(); continue; }
 		if (mv < -1 || mv > (ll)Potassco::atomMax) { o.add(-3); o.flush(); continue; } // setMaxVar beyond atomMax: outside the domain
 		Potassco::SmodelsInput::Options op = reuse::smodelsOptions(c, (opts & 1) != 0, (opts & 2) != 0, (opts & 4) != 0, (opts & 8) != 0);
 		const bool stepwise = (opts & 16) != 0;
